@@ -86,7 +86,10 @@ def worker(args):
     sub = core.Sub()
     env = sx.Env(catalog.by_name(name))
     rel = name.split('-')[0]
-    ops = [op for op in env.ops() if op[0] in ('create', 'set', 'setm', 'add', 'remove', 'delete', 'clear', 'assign', 'flush', 'commit')] \
+    # (creations that take a collection argument are left out: with automatic keys the key a pending object will get depends on
+    # the flush order, and this check names objects by key)
+    ops = [op for op in env.ops() if op[0] in ('create', 'set', 'setm', 'add', 'remove', 'delete', 'clear', 'assign', 'flush', 'commit')
+           and not (op[0] == 'create' and any(isinstance(v, tuple) and v[:1] == ('refs',) for v in op[3].values()))] \
           + [r for r in env.shaping_reads() if r[0] in ('r_citer', 'r_attr')]
     ex = sx.Explorer(env, fixtures=(fixture,), ops=ops)
     labels = [l for root in env.root_entities for l in env.labels_of(root, (1, 2, 3))]
